@@ -85,10 +85,20 @@ type Entry struct {
 
 // ---- concretisation ----
 
-func sfxName(k int) string { return "_" + string(rune('A'+k-1)) + "x" }
+// Identifier texts: free of CSV metacharacters (comma, double quote, CR, LF) as property C20 assumes, but with
+// the other punctuation that real identifiers may carry and that a careless renderer could escape.
+const (
+	RoutePfx = "R&"
+	VehPfx   = "V+"
+	StopPfx  = "S<"
+	TrackPfx = "T'>"
+	sfxTail  = "+&"
+)
+
+func sfxName(k int) string { return "_" + string(rune('A'+k-1)) + sfxTail }
 
 func sfxIndex(s string) int {
-	if len(s) == 3 && s[0] == '_' && s[2] == 'x' && s[1] >= 'A' && s[1] <= 'Z' {
+	if len(s) == 2+len(sfxTail) && s[0] == '_' && s[2:] == sfxTail && s[1] >= 'A' && s[1] <= 'Z' {
 		return int(s[1]-'A') + 1
 	}
 	return -1
@@ -105,7 +115,7 @@ func ConcreteFeed(f Feed) *gtfs.Realtime {
 		t := gtfs.Trip{
 			ID: gtfs.TripID{
 				ID:           fmt.Sprintf("%06d", u.Pfx*100) + sfxName(u.Sfx),
-				RouteID:      "R" + strconv.Itoa(u.Route),
+				RouteID:      RoutePfx + strconv.Itoa(u.Route),
 				DirectionID:  gtfs.DirectionID(u.Dir),
 				HasStartTime: true,
 				StartTime:    time.Duration(u.Start%3600) * time.Second,
@@ -117,12 +127,12 @@ func ConcreteFeed(f Feed) *gtfs.Realtime {
 		if u.Veh.IsSome() {
 			v := &gtfs.Vehicle{}
 			if u.Veh.Val() != 0 {
-				v.ID = &gtfs.VehicleID{ID: "V" + strconv.Itoa(u.Veh.Val())}
+				v.ID = &gtfs.VehicleID{ID: VehPfx + strconv.Itoa(u.Veh.Val())}
 			}
 			t.Vehicle = v
 		}
 		for _, s := range u.Stus {
-			stopID := "S" + strconv.Itoa(s.Stop)
+			stopID := StopPfx + strconv.Itoa(s.Stop)
 			stu := gtfs.StopTimeUpdate{StopID: &stopID}
 			if s.Arr.IsSome() {
 				x := tm(s.Arr.Val())
@@ -136,7 +146,7 @@ func ConcreteFeed(f Feed) *gtfs.Realtime {
 				stu.Departure = &gtfs.StopTimeEvent{}
 			}
 			if s.Track.IsSome() {
-				x := "T" + strconv.Itoa(s.Track.Val())
+				x := TrackPfx + strconv.Itoa(s.Track.Val())
 				stu.NyctTrack = &x
 			}
 			t.StopTimeUpdates = append(t.StopTimeUpdates, stu)
@@ -183,7 +193,7 @@ func ProjTrip(t *journal.Trip) Entry {
 		Uid:      projUID(t.TripUID),
 		Pfx:      -1,
 		Sfx:      -1,
-		Route:    numAfter("R", t.RouteID),
+		Route:    numAfter(RoutePfx, t.RouteID),
 		Dir:      int(t.DirectionID),
 		Start:    int(t.StartTime.Unix() - Base),
 		Assigned: t.IsAssigned,
@@ -203,12 +213,12 @@ func ProjTrip(t *journal.Trip) Entry {
 	case t.VehicleID == "":
 		e.VehId = 0
 	default:
-		e.VehId = numAfter("V", t.VehicleID)
+		e.VehId = numAfter(VehPfx, t.VehicleID)
 	}
 	for i := range t.StopTimes {
 		s := &t.StopTimes[i]
 		st := St{
-			Stop:    numAfter("S", s.StopID),
+			Stop:    numAfter(StopPfx, s.StopID),
 			Arr:     optTime(s.ArrivalTime),
 			Dep:     optTime(s.DepartureTime),
 			LastObs: int(s.LastObserved.Unix() - Base),
@@ -216,7 +226,7 @@ func ProjTrip(t *journal.Trip) Entry {
 			Track:   abs.None[int](),
 		}
 		if s.Track != nil {
-			st.Track = abs.Some(numAfter("T", *s.Track))
+			st.Track = abs.Some(numAfter(TrackPfx, *s.Track))
 		}
 		e.Sts = append(e.Sts, st)
 	}
